@@ -105,6 +105,13 @@ def make_runs(chk):
         for mode in modes[:2]:
             add(spk_, [redeem], ["P2SH"], False, mode, [], {})
             add(spk_, [b"\x07", redeem], STANDARD, False, mode, ["-q"], {})
+    # the same shape with nothing (or not the redeem script) under it: the failure report has no redeem script to show
+    for h in (gen_limits.hash160(b"\x51"), bytes(range(1, 21))):
+        spk_ = bytes([O["HASH160"]]) + G.push(h) + bytes([O["EQUAL"]])
+        for stack in ([], [b""], [b"\x51"], [b"\x07"]):
+            for mode in modes:
+                for fl in (STANDARD, ["P2SH"], []):
+                    add(spk_, stack, fl, False, mode, [], {})
     for script, stack in exc:
         for mode in modes:
             for opts in ([], ["-q"], ["--debug=sighash,signing"]):
